@@ -33,18 +33,32 @@ pub enum Ev {
 
 pub type Log = Rc<RefCell<Vec<Ev>>>;
 
+/// What the instrumented source tells the search about its length (real callers hand in
+/// `slice.iter().copied()` / `str::bytes()` with an exact hint, or hand-written iterators with none).
+#[derive(Clone, Copy, Debug, PartialEq, Eq)]
+pub enum Hint {
+    Unknown,
+    Exact,
+    LowerBound,
+}
+
 pub struct Source {
     data: Rc<Vec<u8>>,
     pos: usize,
     supplied: usize,
     chunk: usize,
     log: Log,
+    hint: Hint,
 }
 
 impl Source {
     pub fn new(data: Rc<Vec<u8>>, log: Log, streaming_chunk: Option<usize>) -> Self {
         let supplied = if streaming_chunk.is_some() { 0 } else { data.len() };
-        Source { data, pos: 0, supplied, chunk: streaming_chunk.unwrap_or(0), log }
+        Source { data, pos: 0, supplied, chunk: streaming_chunk.unwrap_or(0), log, hint: Hint::Unknown }
+    }
+    pub fn with_hint(mut self, hint: Hint) -> Self {
+        self.hint = hint;
+        self
     }
 }
 
@@ -63,6 +77,15 @@ impl Iterator for Source {
         self.log.borrow_mut().push(Ev::Pull(self.pos));
         self.pos += 1;
         Some(b)
+    }
+
+    fn size_hint(&self) -> (usize, Option<usize>) {
+        let rem = self.data.len() - self.pos.min(self.data.len());
+        match self.hint {
+            Hint::Unknown => (0, None),
+            Hint::Exact => (rem, Some(rem)),
+            Hint::LowerBound => (rem, None),
+        }
     }
 }
 
@@ -125,7 +148,7 @@ pub fn check_log(log: &[Ev], hay_len: usize) -> Result<(), String> {
     Ok(())
 }
 
-fn drive<I: Iterator<Item = daachorse::Match<u32>>>(mut it: I, log: &Log, limit: usize, inspect: bool, extra_calls: usize) -> Vec<M<u32>> {
+fn drive<V: Copy, I: Iterator<Item = daachorse::Match<V>>>(mut it: I, log: &Log, limit: usize, inspect: bool, extra_calls: usize) -> Vec<M<V>> {
     let mut out = Vec::new();
     loop {
         match it.next() {
@@ -157,9 +180,14 @@ fn drive<I: Iterator<Item = daachorse::Match<u32>>>(mut it: I, log: &Log, limit:
 }
 
 /// Runs one `*_from_iter` method over an instrumented source. Returns (matches, log).
-pub fn run_logged(p: &Pma<u32>, m: Method, hay: &[u8], streaming_chunk: Option<usize>, inspect: bool, extra_calls: usize, limit: usize) -> (Vec<M<u32>>, Vec<Ev>) {
+pub fn run_logged<V: Copy>(p: &Pma<V>, m: Method, hay: &[u8], streaming_chunk: Option<usize>, inspect: bool, extra_calls: usize, limit: usize) -> (Vec<M<V>>, Vec<Ev>) {
+    run_logged_hint(p, m, hay, streaming_chunk, inspect, extra_calls, limit, Hint::Unknown)
+}
+
+#[allow(clippy::too_many_arguments)]
+pub fn run_logged_hint<V: Copy>(p: &Pma<V>, m: Method, hay: &[u8], streaming_chunk: Option<usize>, inspect: bool, extra_calls: usize, limit: usize, hint: Hint) -> (Vec<M<V>>, Vec<Ev>) {
     let log: Log = Rc::new(RefCell::new(Vec::new()));
-    let src = Source::new(Rc::new(hay.to_vec()), log.clone(), streaming_chunk);
+    let src = Source::new(Rc::new(hay.to_vec()), log.clone(), streaming_chunk).with_hint(hint);
     daachorse::verif::set_step_budget(loose_budget(hay.len(), p.num_states()));
     let out = match p {
         Pma::B(a) => match m {
@@ -203,7 +231,7 @@ pub fn num_cases(ctx: &Ctx) -> u64 {
     match (ctx.mode, ctx.tier) {
         (Mode::Miri, _) => 24,
         (Mode::Asan | Mode::Tsan, _) => 1500,
-        (Mode::Native, Tier::Quick) => 60_000,
+        (Mode::Native, Tier::Quick) => 30_000,
         (Mode::Native, Tier::Thorough) => 800_000,
     }
 }
@@ -240,7 +268,9 @@ pub fn run_case(ctx: &mut Ctx, idx: u64) {
             let streaming = if rng.chance(1, 2) { Some(rng.range(1, 5)) } else { None };
             let inspect = rng.chance(1, 2);
             let extra = rng.usize_below(3);
-            let (got, log) = run_logged(&p, m, hay, streaming, inspect, extra, exp.len() + 1);
+            let hint = *rng.pick(&[Hint::Unknown, Hint::Exact, Hint::Exact, Hint::LowerBound]);
+            ctx.rep.note("source_size_hints", &format!("{hint:?}"));
+            let (got, log) = run_logged_hint(&p, m, hay, streaming, inspect, extra, exp.len() + 1, hint);
             ctx.rep.count("histories_checked", 1);
             ctx.rep.count("events_checked", log.len() as u64);
             if streaming.is_some() {
@@ -265,6 +295,7 @@ pub fn run_case(ctx: &mut Ctx, idx: u64) {
                         .set("method", J::s(m.name()))
                         .set("haystack", bytes_j(hay))
                         .set("streaming_chunk", streaming.map_or(J::Null, J::us))
+                        .set("source_size_hint", J::Str(format!("{hint:?}")))
                         .set("matches", crate::case::matches_j(&got, 12))
                         .set("event_log", log_j(&log, 80))
                         .set("case", case.to_json(40, 200)),
